@@ -104,7 +104,11 @@ def run_stepwise(im, code: str, ast) -> T.Tuple[str, T.List[Viol]]:
             before = im.snapshot()
             names = assigned_names(mp, st)
             try:
-                im.interp.evaluate_codeblock(ast, start=i, end=i + 1)
+                im.arm()        # time limit for the interpreter only, per top-level statement
+                try:
+                    im.interp.evaluate_codeblock(ast, start=i, end=i + 1)
+                finally:
+                    im.disarm()
             finally:
                 if names is not None:
                     after = im.interp.variables
@@ -120,11 +124,13 @@ def run_stepwise(im, code: str, ast) -> T.Tuple[str, T.List[Viol]]:
                             viol.append((f'immut:{code!r}', f'statement {i + 1} changed the value seen through {k!r}',
                                          {'program': code, 'statement': i + 1, 'name': k, 'before': repr(v0), 'after': repr(cur)}))
     except BaseException as e:
-        if isinstance(e, (KeyboardInterrupt, SystemExit, MemoryError)):
+        im.disarm()
+        if isinstance(e, (KeyboardInterrupt, SystemExit)):
             raise
         from .c01_impl import err_class
         ln = getattr(e, 'lineno', None)
         return f'ERR:{err_class(e)}:{ln if isinstance(ln, int) else 0}|{im.canon_msgs()}', viol
+    im.disarm()
     vs = {k: im.unhold(v) for k, v in im.interp.variables.items()}
     return 'OK|' + ';'.join(f'{k}={im.canon(vs[k])}' for k in sorted(vs)) + '|' + im.canon_msgs(), viol
 
@@ -597,8 +603,8 @@ def meson_setup(files: T.Dict[str, str], base: str) -> T.Tuple[int, T.List[str]]
     for l in p.stdout.split('\n'):
         if l.startswith('Message: '):
             msgs.append(l[len('Message: '):])
-        elif l.startswith('sp| Message: '):          # lines logged while inside subproject 'sp'
-            msgs.append('sp| ' + l[len('sp| Message: '):])
+        elif l.startswith('sp| Message:'):           # lines logged while inside subproject 'sp' (mlog strips them)
+            msgs.append('sp| ' + l[len('sp| Message:'):].strip())
     common.rmtree(d)
     return p.returncode, msgs
 
@@ -654,7 +660,7 @@ def oracle_files(im, rng, n: int, base: str) -> T.List[Viol]:
             continue
         k = len(names)
         # messages of the subproject run are those of q standalone (no variable of the parent is visible)
-        if mq and not contains_run(m3, ['sp| ' + m for m in mq]):
+        if mq and not contains_run(m3, ['sp| ' + m.strip() for m in mq]):
             out.append((f'subproject-scope:{prog!r}:{q!r}', 'the subproject does not evaluate as it does standalone (parent variables leak in?)',
                         {'main': main, 'sub': q, 'standalone': mq[-6:], 'inside': m3[-12:]}))
         # after the call the parent's variables are exactly what they were (plus `sp`)
